@@ -26,6 +26,8 @@ import Pog.Model.Registry
       `_write_strategy_based_return`)                        `isNdjsonStream`, `streamJson`
     ._is_text_body (`_write_strategy_based_return` and the
       arm of another 2xx response)                           `isTextBody`, `singleOf`, `secondaryRet`
+    ._write_secondary_return (the `return` of the arm of
+      another 2xx response; F35 repaired)                    `secondaryAction`, `isAsyncGen`
   core/http_transport.HttpxTransport.request:192-200         `bundledClass`, the `.bundled` branch of `handle`
   emitters/exceptions_emitter (which alias classes exist)    `aliasBase` (Pog.Model.Registry)
   CPython compiling / importing the emitted module           `moduleOk`
@@ -40,8 +42,10 @@ import Pog.Model.Registry
     * A status key is `num n` (the canonical decimal `str(n)`), `default`, or `other s` (any other
       string, e.g. `2XX`; never all-digits).  `str(n).startswith("2")` is `leadDigit n = 2`.
   TRUSTED (third party, written as executable description)
-    * CPython: duplicate parameter names, `return <value>` inside an async generator, and
-      `from core import <missing name>` make the module unimportable (`moduleOk`); calling with an
+    * CPython: duplicate parameter names and `from core import <missing name>` make the module unimportable
+      (`moduleOk`; `return <value>` inside an async generator would too - since the repair of F35 no arm of a
+      streaming method is emitted that way); a function whose body contains a `yield` is an async generator: calling
+      it gives an async iterator, a bare `return` ends the iteration (`isAsyncGen`); calling with an
       unknown keyword or without a required one raises `TypeError` before the body runs; reading an
       unbound local raises `NameError`; `match` takes the first arm whose literal equals the subject.
     * httpx 0.28: `cookies={…}` becomes the `Cookie` header (a value that is neither `str` nor `None` raises `TypeError`
@@ -564,6 +568,11 @@ inductive RetKind
   | streamNdjson
   /-- `async for chunk in iter_sse_events_text(response): yield json.loads(chunk)` -/
   | streamSse
+  /-- a bare `return` reached in a method that is an async generator: the iteration ends without an item (F35 repaired) -/
+  | streamEnd
+  /-- `yield <value>` + bare `return` — the arm of another 2xx response in a streaming method (F35 repaired): the
+      async iterator's only item is the value a non-streaming method would have returned -/
+  | yieldOnce (k : RetKind)
   deriving DecidableEq, Repr
 
 def tyRet (t : PyTy) : RetKind := if useCattrs t then .structure t else .cast t
@@ -579,6 +588,10 @@ inductive Action
   /-- `_write_strategy_based_return` -/
   | retStrategy
   | retSecondary (k : RetKind)
+  /-- `_write_secondary_return` for a streaming strategy, no value: a bare `return` (F35 repaired) -/
+  | retStreamEnd
+  /-- `_write_secondary_return` for a streaming strategy: `yield <value>` + bare `return` (F35 repaired) -/
+  | yieldSecondary (k : RetKind)
   /-- `raise <alias>(response=response)` -/
   | raiseAlias (code : Nat)
   /-- `_write_raise_by_status_range(…, "Default error")`: `ClientError` / `ServerError` / `HTTPError` by range (F15 repaired) -/
@@ -597,6 +610,8 @@ def Action.isReturn : Action → Bool
   | .retNone => true
   | .retStrategy => true
   | .retSecondary _ => true
+  | .retStreamEnd => true
+  | .yieldSecondary _ => true
   | _ => false
 
 /-- The primary response gets the first `case` iff its key is all digits and starts with `2`. -/
@@ -620,12 +635,21 @@ def otherResponses (rs : List Resp) : List Resp :=
   | some (p, _) => rs.filter (fun r => !(r == p))
   | none => rs
 
-def otherArm (r : Resp) : Option (Nat × Action) :=
+/-- response_handler_generator `_write_secondary_return(writer, strategy, value)` (F35 repaired) as called by the arm of
+    a 2xx response that is not the primary one: `return <value>` unless `strategy.is_streaming`; in a streaming method
+    (an async generator, where `return <value>` is a SyntaxError) `yield <value>` - nothing for `None` - and a bare
+    `return`. -/
+def secondaryAction (streaming : Bool) (r : Resp) : Action :=
+  if r.content.isEmpty then (if streaming then .retStreamEnd else .retNone)
+  else (if streaming then .yieldSecondary (secondaryRet r) else .retSecondary (secondaryRet r))
+
+/-- `streaming` = `strategy.is_streaming` of the operation. -/
+def otherArm (streaming : Bool) (r : Resp) : Option (Nat × Action) :=
   match r.key.code? with
   | none => none
   | some n =>
     if r.key.starts2 then
-      some (n, if r.content.isEmpty then .retNone else .retSecondary (secondaryRet r))
+      some (n, secondaryAction streaming r)
     -- `elif is_error_code(code): raise <alias>` / `else: raise HTTPError(…"Unhandled status code"…)` (F3 repaired)
     else some (n, if (aliasBase n).isSome then .raiseAlias n else .raiseUnhandled)
 
@@ -634,7 +658,7 @@ def arms (rs : List Resp) : List (Nat × Action) :=
   let first := match processedPrimary rs with
     | some (_, n) => [(n, if (resolveStrategy rs).isNone then Action.retNone else Action.retStrategy)]
     | none => []
-  first ++ (otherResponses rs).filterMap otherArm
+  first ++ (otherResponses rs).filterMap (otherArm (resolveStrategy rs).isStreaming)
 
 /-- The `case _:` arm. -/
 def defaultAction (rs : List Resp) : Action :=
@@ -650,13 +674,14 @@ def selectAction (rs : List Resp) (status : Nat) : Action :=
 
 /-! ## can the emitted module be imported at all? -/
 
-/-- `yield` (a streaming strategy return is emitted) together with a `return <value>` arm. -/
-def hasYield (rs : List Resp) : Bool :=
+/-- The emitted method contains a `yield`, i.e. CPython compiles it to an async generator: a streaming strategy return is
+    emitted (for the primary response or in the arm of a `default` response with content) or the arm of another 2xx
+    response of a streaming method yields its value (F35 repaired: such an arm used to be `return <value>`, a
+    SyntaxError next to a `yield`). -/
+def isAsyncGen (rs : List Resp) : Bool :=
   (resolveStrategy rs).isStreaming &&
-    ((processedPrimary rs).isSome || defaultAction rs == .retDefault)
-
-def hasValueReturn (rs : List Resp) : Bool :=
-  (otherResponses rs).any (fun r => r.key.code?.isSome && r.key.starts2)
+    ((processedPrimary rs).isSome || defaultAction rs == .retDefault ||
+     (otherResponses rs).any (fun r => r.key.code?.isSome && r.key.starts2 && !r.content.isEmpty))
 
 def badLitChar (c : Char) : Bool := c == '{' || c == '}' || c == '"' || c == '\\' || c == '\n' || c == '\r'
 
@@ -671,8 +696,7 @@ def literalsOk (op : Op) : Bool :=
 def defNames (op : Op) : List Str := "self".toList :: (sigOf op).map (·.1)
 
 def moduleOk (op : Op) : Bool :=
-  decide (defNames op).Nodup && (defNames op).all (fun n => !n.isEmpty) && literalsOk op &&
-  !(hasYield op.responses && hasValueReturn op.responses)
+  decide (defNames op).Nodup && (defNames op).all (fun n => !n.isEmpty) && literalsOk op
 
 /-! ## the request -/
 
@@ -1016,6 +1040,7 @@ def strategyRet (s : Strategy) (r : Reply) : RetKind :=
 
 def RetKind.needsStructure : RetKind → Bool
   | .structure _ => true
+  | .yieldOnce k => k.needsStructure
   | _ => false
 
 /-- Does the emitted module import `structure_from_dict`?  `context.add_import(…, "structure_from_dict")`
@@ -1034,8 +1059,9 @@ def Strategy.usesStructure : Strategy → Bool
 def importsStructure (rs : List Resp) : Bool :=
   ((resolveStrategy rs).usesStructure &&
    ((processedPrimary rs).isSome || defaultAction rs == .retDefault)) ||
-  (otherResponses rs).any (fun r => match otherArm r with
+  (otherResponses rs).any (fun r => match otherArm (resolveStrategy rs).isStreaming r with
     | some (_, .retSecondary k) => k.needsStructure
+    | some (_, .yieldSecondary k) => k.needsStructure
     | _ => false)
 
 def returnOf (rs : List Resp) (k : RetKind) : Outcome :=
@@ -1045,6 +1071,9 @@ def runAction (rs : List Resp) (r : Reply) : Action → Outcome
   | .retNone => .returned .none
   | .retStrategy => returnOf rs (strategyRet (resolveStrategy rs) r)
   | .retSecondary k => returnOf rs k
+  -- a bare `return`: the end of the iteration when the method is an async generator, `None` from a coroutine
+  | .retStreamEnd => .returned (if isAsyncGen rs then .streamEnd else .none)
+  | .yieldSecondary k => returnOf rs (.yieldOnce k)
   | .raiseAlias c => .raised (.alias c) r.status true .aliasArm
   | .raiseDefault => .raised (rangeClass r.status) r.status true .defaultArm
   | .raiseUnhandled => .raised .httpError r.status true .unhandledArm
